@@ -101,7 +101,9 @@ theorem second_left [AddCommMonoid R] [Mul R] [Neg R] [SignRing R]
       ∧ (∀ s ∈ cb.sectors, ∀ o, inBox (Arr.blockShapeD cb.indices s) o = true →
           cm.elem s o = cb.elem s o)
       ∧ (∀ s, s ∉ cb.sectors → ∀ o, (∀ V, alookup cm.blocks s = some V → inBox V.shape o = true) →
-          cm.elem s o = 0) := by
+          cm.elem s o = 0)
+      ∧ (∀ K V, alookup cm.blocks K = some V →
+          Arr.blockShape? (without P.indices x ++ without C.indices y) K = some V.shape) := by
   have hpar : P.parity = Q.parity := by
     show Sym.parity P.sym P.charge = Sym.parity Q.sym Q.charge
     rw [hp.sym, hch]
@@ -157,7 +159,7 @@ theorem second_left [AddCommMonoid R] [Mul R] [Neg R] [SignRing R]
       rw [← hsplit] at hbb
       conv_rhs => rw [← hsplit]
       rw [Fq.elem s _ _ (by rw [← hp.ndim]; exact hoL) hbb]
-    refine ⟨cm, h1, by rw [f1, hc', k6, q6], ?_, ?_, ?_, hAcl, ?_, ?_, ?_⟩
+    refine ⟨cm, h1, by rw [f1, hc', k6, q6], ?_, ?_, ?_, hAcl, ?_, ?_, ?_, hshape⟩
     · rw [f2, hc', k1, q1, Fp.charge, Fq.charge, hp.sym, hch]
     · rw [f3, hc', k2, q2, Fp.sym, Fq.sym, hp.sym]
     · rw [f4, hc', k3, q3, Fp.fermi, Fq.fermi, Wm.fa, Wb.fa]
@@ -217,7 +219,9 @@ theorem second_right [AddCommMonoid R] [Mul R] [Neg R] [SignRing R]
       ∧ (∀ s ∈ cb.sectors, ∀ o, inBox (Arr.blockShapeD cb.indices s) o = true →
           cm.elem s o = cb.elem s o)
       ∧ (∀ s, s ∉ cb.sectors → ∀ o, (∀ V, alookup cm.blocks s = some V → inBox V.shape o = true) →
-          cm.elem s o = 0) := by
+          cm.elem s o = 0)
+      ∧ (∀ K V, alookup cm.blocks K = some V →
+          Arr.blockShape? (without A.indices x ++ without P.indices y) K = some V.shape) := by
   obtain ⟨he, hk⟩ := tensordotF_modes_all_w hz1 hz2 A P x y Wm mode hmode
   have hbq := tensordotF_eq_core_w A Q x y Wb
   have hbp := tensordotF_eq_core_w A P x y Wm
@@ -271,7 +275,7 @@ theorem second_right [AddCommMonoid R] [Mul R] [Neg R] [SignRing R]
       rw [← hsplit] at hbb
       conv_rhs => rw [← hsplit]
       rw [Fq.elem s _ _ hoL hbb]
-    refine ⟨cm, h1, by rw [f1, hc', k6, q6], ?_, ?_, ?_, hAcl, ?_, ?_, ?_⟩
+    refine ⟨cm, h1, by rw [f1, hc', k6, q6], ?_, ?_, ?_, hAcl, ?_, ?_, ?_, hshape⟩
     · rw [f2, hc', k1, q1, Fp.charge, Fq.charge, hch]
     · rw [f3, hc', k2, q2, Fp.sym, Fq.sym]
     · rw [f4, hc', k3, q3, Fp.fermi, Fq.fermi]
